@@ -38,9 +38,13 @@ fn push_u16(code: &mut Vec<u8>, x: i32) {
     if x <= 32767 {
         pushw(code, x as i16);
     } else {
-        pushw(code, (x / 2) as i16);
-        pushw(code, (x - x / 2) as i16);
+        pushw(code, 32767);
+        pushw(code, (x - 32767).min(32767) as i16);
         code.push(ADD);
+        if x == 65535 {
+            pushw(code, 1);
+            code.push(ADD);
+        }
     }
 }
 
